@@ -122,6 +122,56 @@ func %s() {
 `, name, m.fn, name, m.n, q1, h1, opts, m.call, f2, m.call)
 		fam.Instances = append(fam.Instances, Instance{Func: name, Stratum: m.fn, Desc: "result map after two calls of " + m.fn, Expect: []string{"first call", "second call"}})
 	}
+	// a call through another entry point must not leave entries of the previous call behind
+	second := []struct{ id, call string }{
+		{"DAGEmpty", "eng.ExecuteDAGModel(rb, nil)"},
+		{"DAGEmptyRows", "eng.ExecuteDAGModel(rb, [][]string{})"},
+		{"DAGUnknownOnly", "eng.ExecuteDAGModel(rb, [][]string{{\"zz\"}})"},
+		{"DAGOne", "eng.ExecuteDAGModel(rb, [][]string{{\"r1\"}})"},
+		{"SelectedUnknown", "eng.ExecuteSelectedRules(rb, []string{\"zz\"})"},
+		{"SelectedEmpty", "eng.ExecuteSelectedRulesConcurrent(rb, nil)"},
+		{"NMRejected", "eng.ExecuteNSortMConcurrent(0, 1, rb, true)"},
+		{"SelNMRejected", "eng.ExecuteSelectedNConcurrentMSort(1, 1, rb, true, []string{\"r0\"})"},
+		{"MixOne", "eng.ExecuteSelectedRulesMixModel(rb, []string{\"r1\"})"},
+		{"InverseUnknown", "eng.ExecuteSelectedRulesInverseMixModel(rb, []string{\"zz\"})"},
+		{"Concurrent", "eng.ExecuteConcurrent(rb)"},
+	}
+	for _, sc := range second {
+		name := "H_then_" + sc.id
+		fmt.Fprintf(&b, `
+// Execute, then %s on the same engine
+func %s() {
+	n := 2
+	s := fixedSal(n)
+	dc := newDC(nil)
+	g, f, v := symFlags("g", n), symFlags("f", n), symVals("v", n)
+	addFlags(dc, "g", g)
+	addFlags(dc, "f", f)
+	addVals(dc, "v", v)
+	rb := buildText(dc, rulesTextOpt(n, s, "g"))
+	eng := engine.NewGengine()
+	base := countsOf(n)
+	err := eng.Execute(rb, true)
+	res, _ := eng.GetRulesResultMap()
+	vnd.Reach("first call")
+	checkResult(res, n, base, g, allFalse(n), allFalse(n), f, v)
+	g2, v2 := symFlags("gg", n), symVals("vv", n)
+	addFlags(dc, "g", g2)
+	addFlags(dc, "f", allFalse(n))
+	addVals(dc, "v", v2)
+	base = countsOf(n)
+	err = %s
+	_ = err
+	vnd.Event("ret2")
+	res2, _ := eng.GetRulesResultMap()
+	vnd.RequireJoined("ret2")
+	vnd.StopIfViolated()
+	vnd.Reach("second call")
+	checkResult(res2, n, base, g2, allFalse(n), allFalse(n), allFalse(n), v2)
+}
+`, sc.id, name, sc.call)
+		fam.Instances = append(fam.Instances, Instance{Func: name, Stratum: "sequence:" + sc.id, Desc: "Execute then " + sc.id + " on one engine", Expect: []string{"first call", "second call"}})
+	}
 	// returns nested in control flow (sort model)
 	nested := []struct{ id, body, want string }{
 		{"for", " for i = 0; i < 4; i += 1 {\n  if i == k {\n   return i\n  }\n }\n", "vnd.And(k >= 0, k < 4)|k"},
